@@ -64,6 +64,11 @@ CLAIMED = {
     note="Partial because data-race freedom under the Go memory model and the real sync.Pool are not modelled: the LTS assumes a thread only touches the buffer it owns; that assumption is what the race detector and the checksumming writer observe on the schedules the runtime happens to pick (not all schedules). Trusted: Coq kernel + vm_compute, the ownership model, go2coq statement extraction for Event.write, Go race detector, harness.",
     technique="Coq proof (ownership invariant over all schedules of an LTS) + race-detector stress with checksumming writer against model-predicted bytes",
     design="5 C06"),
+ "C05": dict(
+    text="Theorem C05_independent (Coq): over Go slice semantics (backing arrays, headers, append in place iff it fits else a fresh array of ANY sufficient capacity - growth policy universally quantified), for EVERY derivation program of the property's language (trees of With()...Logger() chains, Level/Sample/Hook header copies, Output, UpdateContext on loggers produced by With()/Output, events from any node in any order) every emitted event reads exactly the context of its own derivation path; proved by an ownership invariant (one in-place appender per array, every other header no longer than it). K1 (a Context value used twice) is C05_ctx_value_branched_refuted and a known finding. GetCtx soundness and 'Output changes only the destination' are obligations over tables go2coq regenerates from the source on every run (every field of the current Event struct is reassigned by the current newEvent; Output copies every Logger field but the writer). Tie: 1200 generated derivation programs per run, including non-linear ones outside the language, on which the heap model must predict the real bytes; GetCtx probes through pooled helper events; a concurrent tree under the race detector.",
+    note="Trusted: Coq kernel + vm_compute; the slice/heap model (validated by predicting the aliasing of non-linear programs byte for byte); go2coq struct-field/assignment extraction; harness. Statement-level interleavings of goroutines are covered by the sequential theorem only insofar as each interleaving is itself a program of the language; true concurrency (memory model) is observed by the race detector, not proved. Programs whose contexts outgrow 500 bytes are monitored against the path specification but not evaluated in the model (Go's growth policy is not the doubling used for evaluation; the theorem covers every policy).",
+    technique="Coq proof (heap ownership invariant, all growth policies) + go2coq field tables + heap-model correspondence incl. programs outside the language",
+    design="5 C05"),
 }
 
 NOT_YET = {}
